@@ -274,8 +274,34 @@ PROPS["C11"] = dict(
                  "two allowances justified in BB/Conform/C11Policy.lean: Worker.stop/done read by Worker.do (go edge + close/receive), exclusiveItem.work read by the runner after the swap"],
 )
 
+PROPS["C05"] = dict(
+    lean_targets=["BB.Core.Fair", "BB.Props.C05"],
+    theorems=["BB.LTS.leadsTo", "BB.Props.C05.inv_step_table", "BB.Props.C05.inv_reach", "BB.Props.C05.nil_only_after_predicate_true",
+              "BB.Props.C05.error_only_if_cancelled", "BB.Props.C05.no_lost_wakeup", "BB.Props.C05.not_stuck",
+              "BB.Props.C05.cancelled_leadsTo_return", "BB.Props.C05.predicate_true_leadsTo_return",
+              "BB.Props.C05.watcher_without_lock_loses_wakeup", "BB.Props.C05.mutator_without_broadcast_loses_wakeup",
+              "BB.Props.C05.failed_get_no_advance"],
+    corr=[dict(family="waitcond", quick=6, thorough=300, mismatch_is_violation=True, no_shrink=True,
+               nontrivial=has("event_between_check_and_park"),
+               rule="waitcond (forced schedules, T4): the real WaitCond with {cancel, a mutator that sets the predicate and broadcasts in one critical section, both} "
+                    "placed {before the call, with the waiter held just before the predicate, held between predicate and cond.Wait, after it parked}; the waiter/"
+                    "watcher are held at verif hook points (gates); result nil / ctx error / hang compared with the Lean transition system run under a fair scheduler; "
+                    "non-trivial = the event lands between the check and the park"),
+          dict(family="bufgate", quick=2, thorough=60, mismatch_is_violation=True, no_shrink=True, timeout=2400,
+               nontrivial=has("event_between_check_and_park"),
+               rule="bufgate (forced schedules, T4): a blocking consumer.Get on a real Buffer with {Put, cancel of the Get context, Buffer.Close, consumer.Close} placed in "
+                    "{before, consumer mutex held, after the synchronous attempt, waiter spawned, waiter about to park, parked}; result of the Get and of the following "
+                    "Put+Get (a failed Get consumed nothing) compared with the Buffer L1 model; consumer.Close during a Get is predicted to wait for the Get (proviso of C12)"),
+          dict(family="buffer", quick=150, thorough=5000, probes=buffer_probes, observable={"get", "range", "brange"},
+               nontrivial=has("get_blocked", "range_blocked"),
+               rule="buffer family (see C01): sequential scripts incl. Gets that park (detected through hooks) and are cancelled; non-trivial = a Get that blocked")],
+    assumptions=["sync.Cond semantics modelled (Wait = atomically enqueue + unlock; Broadcast notifies the enqueued); weak fairness of the scheduler for the two leadsTo theorems",
+                 "the WaitCond model has one waiter; other waiters on the same cond appear as spurious notifications; mutators are single critical sections (T1 facts + C11)"],
+)
+
 with_conform(PROPS["C01"], "Buffer")
 with_conform(PROPS["C02"], "Buffer")
 with_conform(PROPS["C03"], "Buffer")
 with_conform(PROPS["C13"], "Channel")
 with_conform(PROPS["C16"], "Ctx")
+with_conform(PROPS["C05"], "WaitCond", "Buffer")
